@@ -90,6 +90,22 @@ def replay(native, v):
         op, path = faults[0]
         # realise the fault with OS means: /dev/full behind the output or temp path makes write/flush fail with ENOSPC
         target = 'a.txt' if path.endswith('/a.txt') else 't.tmp' if path.endswith('/t.tmp') else None
+        if op.startswith('write') and target and build_faultinj():
+            # the n-th write(2) to the file fails with ENOSPC (LD_PRELOAD shim); unlike /dev/full this leaves fsync / metadata alone
+            shutil.rmtree(root, ignore_errors=True)
+            tries = []
+            bad = False
+            for nth in (1, 2, 3):
+                res_ = ppreplay.run_native_fault(d, model, 'write', target, nth, mode_args=MODE_ARGS[mode], trailing=d.get('trailing', True))
+                tries.append({'nth': nth, 'injected': res_['injected'], 'rc': res_['rc']})
+                if not res_['injected']:
+                    break
+                if res_['rc'] == 0 and mode != 'Clean':
+                    bad = True
+                    detail['output'] = repr(res_['output'])
+                    break
+            detail.update({'fault': 'LD_PRELOAD shim failing the n-th write to %s with ENOSPC' % target, 'tries': tries})
+            return bad, detail
         if op.startswith('write') and target:
             p = os.path.join(work, target)
             if os.path.exists(p):
